@@ -44,15 +44,27 @@ impl<const N: usize> Context<N> {
         if nonce.is_empty() {
             return false;
         }
+        #[cfg(octo_verif)]
+        crate::verif::sync_point("check.before");
         match self.nonce_cache.try_lock() {
+            #[cfg(octo_verif)]
+            Ok(_) if crate::verif::at("check.locked") => unreachable!(),
+            #[cfg(octo_verif)]
+            Err(_) if crate::verif::at("check.busy") => unreachable!(),
             Ok(mut set) => set.get(nonce).is_some(),
             Err(_) => false,
         }
     }
 
     pub fn set_nonce(&self, nonce: [u8; N]) {
+        #[cfg(octo_verif)]
+        crate::verif::sync_point("set.before");
         if let Ok(mut set) = self.nonce_cache.try_lock() {
+            #[cfg(octo_verif)]
+            crate::verif::at("set.locked");
             set.insert(nonce, ());
+            #[cfg(octo_verif)]
+            crate::verif::emit("set.done", "");
         }
     }
 }
